@@ -472,6 +472,8 @@ def run(ctx):
                 m = re.search(r"!ORACLE\((\w+)", " ".join(io))
                 kind = m.group(1) if m else "crash"
                 key = "oracle:%s:%s" % (kind, signature(small, kind))
+                if key.endswith(":self-aliasing-argument"):
+                    key = "oracle:contents:self-aliasing-argument"   # one finding, whatever symptom shows first
                 if key not in seen_keys:
                     seen_keys.add(key)
                     ctx.failing_input(key, text)
@@ -499,6 +501,8 @@ def run(ctx):
 def signature(small, kind="contents"):
     """what a minimised failing case is about: the operation kinds it still contains"""
     kinds = []
+    if any(w in o.split() for o in small for w in ("pushself", "insnself", "empself")):
+        return "self-aliasing-argument"     # v.push_back(v[j]) / v.insert(pos, n, v[j]) / v.emplace(pos, v[j])
     for o in small if kind == "contents" else []:
         w = o.split()
         if len(w) >= 4 and w[1] == "insn" and w[3] == "0" or len(w) == 3 and w[1] == "insr":
